@@ -1,4 +1,4 @@
-import MtailVerif.Proofs.ScopeRegex
+import MtailVerif.Proofs.ScopeUndecl
 /-! # C24 — invalid programs are rejected with a positioned error
 
     `Scope.check` (Model/Scope.lean) mirrors the checker's symbol handling; regular-expression
@@ -7,7 +7,10 @@ import MtailVerif.Proofs.ScopeRegex
     inside a decorator definition is reported for every program and every position it can stand at
     (`next_outside_decorator_rejected`, a statement over all ASTs); so is a pattern written with
     literals whose text is over the length limit or does not parse, wherever in the program it
-    stands (`bad_literal_regex_rejected`, also over all ASTs, decorator definitions included); and each of the other defect
+    stands (`bad_literal_regex_rejected`, also over all ASTs, decorator definitions included); so is
+    a name that no declaration of the program introduces, used as an identifier or as a decorator
+    (`undeclared_name_rejected`: an invariant of the checker's whole state says nothing can resolve
+    the name, whatever was declared, captured by `next` or instantiated before); and each of the other defect
     classes is reported by its clause whenever the walk reaches the offending node
     (`*_reported`: the lookup fails / the name is taken / the pattern is too long or does not parse /
     a declaration leaves its scope unused), each with the offending node's or declaration's own
@@ -40,6 +43,19 @@ theorem next_outside_decorator_rejected (cfg : Cfg) (prog : Node) (h : hasNextOu
 theorem bad_literal_regex_rejected (cfg : Cfg) (prog : Node) (h : hasBadRegex cfg prog = true) :
     check cfg prog ≠ [] := by
   have := badRegex_fires cfg prog h {} rfl
+  unfold check
+  intro he
+  rw [he] at this
+  simp at this
+
+/-- **undeclared metric / undefined decorator**: a name that no `counter`/`gauge`/… declaration,
+    no `const` and no `def` anywhere in the program introduces, used as an identifier in any
+    expression or as a decorator on any block — in nested blocks, else branches, decorator
+    definitions, decorated blocks (whose scope is a copy of what the definition saw at `next`),
+    after any other errors — makes the checker reject the program. -/
+theorem undeclared_name_rejected (cfg : Cfg) (prog : Node) (name : String)
+    (hd : declares name prog = false) (hm : mentions name prog = true) : check cfg prog ≠ [] := by
+  have := undecl_fires cfg name prog hd hm {} rfl (inv_init name)
   unfold check
   intro he
   rw [he] at this
@@ -129,6 +145,19 @@ example : check cfg0 (.stmts (.cons (.cond (.un .match (.patexpr (.patlit [120] 
 example : hasBadRegex { cfg0 with maxRegexLen := 2 } (.stmts (.cons (.decodecl "d" (.stmts (.cons (.cond
     (.un .match (.patexpr (.patlit [120, 121, 122] p0) []) p0 .unk)
     (.stmts (.cons (.next ⟨1, 2, 5⟩) .nil)) .nil) .nil)) p0) .nil)) = true := by decide
+
+/-- `counter a` / `/x/ { zz++ }`: `zz` is declared nowhere and mentioned, and the model reports it
+    (with the unused `a`) -/
+example : declares "zz" (.stmts (.cons (.decl { kind := 1, name := "a", hidden := false, exported := "", keys := [], limit := 0, buckets := [] } p0)
+      (.cons (.cond (.un .match (.patexpr (.patlit [120] p0) []) p0 .unk)
+        (.stmts (.cons (.un .inc (.id "zz" ⟨1, 2, 3⟩ .unk) p0 .unk) .nil)) .nil) .nil))) = false ∧
+    mentions "zz" (.stmts (.cons (.decl { kind := 1, name := "a", hidden := false, exported := "", keys := [], limit := 0, buckets := [] } p0)
+      (.cons (.cond (.un .match (.patexpr (.patlit [120] p0) []) p0 .unk)
+        (.stmts (.cons (.un .inc (.id "zz" ⟨1, 2, 3⟩ .unk) p0 .unk) .nil)) .nil) .nil))) = true ∧
+    (check cfg0 (.stmts (.cons (.decl { kind := 1, name := "a", hidden := false, exported := "", keys := [], limit := 0, buckets := [] } p0)
+      (.cons (.cond (.un .match (.patexpr (.patlit [120] p0) []) p0 .unk)
+        (.stmts (.cons (.un .inc (.id "zz" ⟨1, 2, 3⟩ .unk) p0 .unk) .nil)) .nil) .nil)))).map (·.cls) = [.undeclared, .unused .var] := by
+  refine ⟨by decide, by decide, by decide⟩
 
 /-- the same `next` inside a decorator definition is fine, and the decorated block sees `$0` -/
 example : check cfg0 (.stmts (.cons (.decodecl "d" (.stmts (.cons (.cond (.un .match (.patexpr (.patlit [120] p0) []) p0 .unk)
